@@ -56,6 +56,7 @@ def gen_cases(ctx):
     tperm = list(range(128))
     rng.shuffle(tperm)
     tcount = [0]
+    pcount = [0]
     for i in range(ntop):
         hostile = (i % 8 == 7)
         nodes = N.tree_topology(rng, 2, 12 if i % 3 else 6)
@@ -87,7 +88,13 @@ def gen_cases(ctx):
             # every user type 0..127 comes round (a permutation is cycled through), mixed with
             # the boundary values around the acknowledged range
             tcount[0] += 1
-            t = rng.choice([0, 1, 63, 64, 65, 66, 127]) if tcount[0] % 3 == 0 else tperm[(tcount[0] * 2 // 3) % 128]
+            if tcount[0] % 4 == 0:
+                t = rng.choice([0, 1, 63, 64, 65, 66, 127])
+            elif tcount[0] % 4 == 1:
+                t = rng.randrange(2, 9)  # values a fragment counter also takes
+            else:
+                pcount[0] += 1
+                t = tperm[pcount[0] % 128]
             ms = {"src": src, "dst": dst, "len": n, "type": t}
             prev = [x for x in msgs if x["src"] == src]
             if prev and rng.random() < 0.25:
